@@ -268,6 +268,9 @@ def run(tier):
                                          "msg": ob.get("msg", ""), "source": docs[i]["src"] if i < nmc else "random"})
     chk.evaluations = executed
     chk.exhaustive = False
+    chk.states = chk.extra.get("mc_states", 0) + s1 + s2
+    chk.transitions = chk.extra.get("mc_transitions", 0) + s1 + s2
+    chk.traces = len(judged)
     chk.extra.update({
         "trace_states": s1 + s2, "documents_enumerated_by_tlc": nmc, "documents_random": len(rrecs),
         "documents_executed": executed, "skipped_predicted_hang_or_overflow": nskip + nskip_r,
